@@ -623,3 +623,30 @@ Qed.
 (* ------------------------------------------------------------------ every reachable state *)
 Lemma reachable_inv max_streams random ops : d_inv (drun (dstate_new max_streams random) ops).
 Proof. apply drun_inv. apply new_inv. Qed.
+
+(* ------------------------------------------------------------------ the hypotheses are satisfiable *)
+(* serve_cond on a reachable state: acceptor 1 queued and abandoned, acceptor 2 queued and alive *)
+Example serve_cond_reachable :
+  let s := drun (dstate_new 128 [7; 100; 200]) [DoPushAcceptor 1; DoPushAcceptor 2; DoDropAcceptor 1] in
+  d_syns s = [] /\ find_stream s {| k_addr := 5; k_conn := dm_conn a_syn |} = None /\
+  serve_cond s (syn_of 5 a_syn) [1] 2 [] /\
+  snd (dstep s (DoRunOnce [] (ArmRecv 5 (Some a_syn)))) = [EvAccepted 2 {| k_addr := 5; k_conn := 51 |}].
+Proof.
+  cbv zeta. unfold serve_cond. vm_compute. repeat split; auto.
+  intros [H|[]]. discriminate H.
+Qed.
+
+(* four pending connects to one address: the fifth is refused (its requester is dropped), the
+   SYN still goes out; after one of the four is abandoned and its ConnectDropped handled, the
+   next one gets the slot *)
+Example four_pending_reachable :
+  let cn t := [DoConnect 5 t; DoRunOnce [] (ArmControl SynSent)] in
+  let s4 := drun (dstate_new 128 [7; 100; 200; 300; 400; 500; 600]) (cn 1 ++ cn 2 ++ cn 3 ++ cn 4) in
+  let '(s5, e5) := dstep (drun s4 [DoConnect 5 5]) (DoRunOnce [] (ArmControl SynSent)) in
+  let s6 := drun s5 [DoDropConnect 5 2; DoRunOnce [] (ArmControl SynSent)] in
+  let '(s7, e7) := dstep (drun s6 [DoConnect 5 6]) (DoRunOnce [] (ArmControl SynSent)) in
+  map cn_token (pending s4 5) = [1; 2; 3; 4] /\
+  e5 = [EvSentSyn 5 15 500; EvConnectErr 5] /\ d_results s5 = [(5, CrDead)] /\
+  map cn_token (pending s6 5) = [1; 3; 4] /\
+  e7 = [EvSentSyn 5 15 600] /\ map cn_token (pending s7 5) = [1; 6; 3; 4].
+Proof. vm_compute. repeat split. Qed.
